@@ -58,6 +58,12 @@ fn answer(line: &str) -> String {
                 }
             })
         }
+        "O" => {
+            // the OS-timer arm: Instants b and a nanoseconds after one fixed instant
+            let b: u64 = it.next().unwrap().parse().unwrap();
+            let a: u64 = it.next().unwrap().parse().unwrap();
+            guarded(|| verif::os_timestamp_duration_since(b, a).to_string())
+        }
         "F" => {
             let secs: u64 = it.next().unwrap().parse().unwrap();
             let nanos: u32 = it.next().unwrap().parse().unwrap();
